@@ -1,1 +1,491 @@
-#define XV_HAVOC_ACQ p1 = 0; p2 = 0
+/* unit hp - hazard_pointer: slot word, static slot free list, guard_ptr operations (C18, C15 guard part, C01 protect side).
+ * Only declarations, stubs, ghost state, invariants and harnesses here; every function body under contract is in lowered.h */
+#include <stdint.h>
+#include <stddef.h>
+static void mon_store(void* addr, uint64_t v, int o);
+static void mon_load(void* addr, uint64_t v, int o);
+static void mon_fence(int o);
+#define XV_ON_STORE(addr, val, order) mon_store((void*)(addr), (uint64_t)(val), (order))
+#define XV_ON_LOAD(addr, val, order) mon_load((void*)(addr), (uint64_t)(val), (order))
+#define XV_ON_FENCE(order) mon_fence(order)
+#include "xv.h"
+int xv_threw; uint64_t xv_clock, xv_rmw_old; _Bool xv_cas_ok;
+#define XV_EXC_bad_hazard_pointer_alloc 7
+#ifndef XV_K
+#define XV_K 3
+#endif
+#define TSAN_MEMORY_ORDER(tsan_order, normal_order) normal_order   /* detail/port.hpp, non-TSan build */
+
+/* ---------------- types ---------------- */
+typedef uintptr_t mptr;                                   /* MarkedPtr / concurrent_ptr cell: one word */
+struct hp_slot { uintptr_t value; };                       /* std::atomic<marked_ptr<void*,1>> value */
+struct cb { struct hp_slot pointers[XV_K]; };              /* static_hp_thread_control_block: hazard_pointer pointers[Strategy::K] */
+struct thread_data { struct cb* control_block; struct hp_slot* hint; };
+struct guard { mptr ptr; struct hp_slot* hp; };
+struct thread_data local_thread_data; struct cb the_cb; int global_thread_block_list;
+size_t xv_number_of_active_hps;
+
+/* ---------------- marked_ptr stubs (algebra proved in the marked_ptr unit) ---------------- */
+uintptr_t mp_ptrmask;                                      /* pointer_mask of the guard's MarkedPtr: arbitrary */
+#define MP_get(x) ((x) & mp_ptrmask)
+#define MP_reset(x) ((x) = 0)
+#define CANON(x) ((MP_get(x) >> 48) == 0)                  /* pointer part is a canonical address */
+#define SV_BIT ((uintptr_t)1 << 63)                        /* marked_ptr<void*,1,16>: the mark is the top bit */
+static uintptr_t SV_make(uintptr_t p, uintptr_t m) { XV_XASSERT((p & SV_BIT) == 0); return p | ((m & 1) << 63); }
+#define SV_get(v) ((v) & ~SV_BIT)
+#define SV_mark(v) ((uintptr_t)((v) >> 63))
+
+/* ---------------- glue for the lowered text ---------------- */
+static void g_ctor(struct guard*, mptr); static void g_reset(struct guard*); static void g_do_swap(struct guard*, struct guard*);
+static void hp_set_object(struct hp_slot*, uintptr_t); static void hp_set_link(struct hp_slot*, struct hp_slot*);
+static struct hp_slot* hp_get_link(struct hp_slot*); static _Bool hp_is_link(struct hp_slot*);
+static struct hp_slot* cb_begin(struct cb*); static struct hp_slot* cb_end(struct cb*); static size_t cb_number_of_hps(struct cb*);
+static struct hp_slot* cb_initialize_next_block(struct cb*); static struct hp_slot* cb_need_more_hps(struct cb*);
+static struct hp_slot* cb_initialize_block(struct cb*); static void cb_initialize(struct cb*, struct hp_slot**);
+static struct hp_slot* cb_alloc_hazard_pointer(struct cb*, struct hp_slot**);
+static void cb_release_hazard_pointer(struct cb*, struct hp_slot**, struct hp_slot**);
+static struct hp_slot* td_alloc_hazard_pointer(struct thread_data*); static void td_release_hazard_pointer(struct thread_data*, struct hp_slot**);
+static void td_ensure_has_control_block(struct thread_data*);
+#define HP_set_object(s, o) hp_set_object(&(s), (o))
+#define HP_set_link(s, l) hp_set_link(&(s), (l))
+#define HP_get_link(s) hp_get_link(&(s))
+#define CB_begin(b) cb_begin(&(b))
+#define CB_end(b) cb_end(&(b))
+#define CB_number_of_hps(b) cb_number_of_hps(&(b))
+#define CB_initialize_next_block(b) cb_initialize_next_block(&(b))
+#define CB_need_more_hps(b) cb_need_more_hps(&(b))
+#define CB_initialize_block(b) cb_initialize_block(&(b))
+#define CB_initialize(b, hint) cb_initialize(&(b), &(hint))
+#define CB_alloc_hazard_pointer(b, hint) cb_alloc_hazard_pointer(&(b), &(hint))
+#define CB_release_hazard_pointer(b, hp, hint) cb_release_hazard_pointer(&(b), &(hp), &(hint))
+#define TD_alloc_hazard_pointer(td) td_alloc_hazard_pointer(&(td))
+#define TD_release_hazard_pointer(td, hp) td_release_hazard_pointer(&(td), &(hp))
+#define XV_TRY_ASSIGN(lhs, call) do { struct hp_slot* xv_t = (call); if (!xv_threw) lhs = xv_t; } while (0)
+#define XV_SWAP(a, b) do { __typeof__(a) xv_s = (a); (a) = (b); (b) = xv_s; } while (0)
+#define XV_INIT_base(self, p) (self)->ptr = (p)
+#define XV_INIT_hp(self, ...) (self)->hp = (struct hp_slot*)(__VA_ARGS__ + 0)
+#define XV_INIT_guard_ptr(self, p) g_ctor((self), (p))
+
+/* ---------------- stubs of callees outside this unit ---------------- */
+unsigned gh_acquire_entry_calls;
+static struct cb* tbl_acquire_entry(void) {                /* thread_block_list::acquire_entry: a fresh or an adopted block - arbitrary slot contents */
+  for (unsigned i = 0; i < XV_K; i++) the_cb.pointers[i].value = nondet_uptr();
+  gh_acquire_entry_calls++; return &the_cb;
+}
+#define TBL_acquire_entry(list) tbl_acquire_entry()
+struct obj_ghost { int unused; } xv_obj;
+uintptr_t gh_deleter_obj, gh_deleter, gh_retired_obj; unsigned gh_set_deleter_calls, gh_retire_calls, gh_scan_calls;
+size_t gh_retired_count, gh_threshold; _Bool gh_retired_while_holding;
+struct guard* gh_reclaiming;
+#define OBJ(p) (gh_deleter_obj = (p), &xv_obj)
+#define OBJ_set_deleter(o, d) (gh_deleter = (d), gh_set_deleter_calls++, (void)(o))
+static size_t td_add_retired_node(uintptr_t p) { gh_retired_obj = p; gh_retire_calls++; return gh_retired_count; }
+#define TD_add_retired_node(td, p) td_add_retired_node(p)
+#define AS_retired_nodes_threshold() gh_threshold
+#define TD_scan(td) ((void)gh_scan_calls++)
+
+/* ---------------- monitors: per slot the last store and the first seq_cst fence after it; the loads of the source ---------------- */
+uint64_t mon_st_clock[XV_K], mon_fence_clock[XV_K]; uintptr_t mon_st_val[XV_K]; int mon_st_order[XV_K]; unsigned mon_st_count[XV_K]; _Bool mon_fenced[XV_K];
+mptr* mon_src; uint64_t mon_ld_clock; mptr mon_ld_val; int mon_ld_order; unsigned mon_ld_count; unsigned mon_weak_fence;
+static void mon_store(void* addr, uint64_t v, int o) {
+  for (unsigned i = 0; i < XV_K; i++) if (addr == (void*)&the_cb.pointers[i].value) {
+    mon_st_clock[i] = xv_clock; mon_st_val[i] = v; mon_st_order[i] = o; mon_st_count[i]++; mon_fenced[i] = 0; }
+}
+static void mon_fence(int o) {
+  if (o != mo_seq_cst) { mon_weak_fence++; return; }
+  for (unsigned i = 0; i < XV_K; i++) if (!mon_fenced[i]) { mon_fenced[i] = 1; mon_fence_clock[i] = xv_clock; }
+}
+static void mon_load(void* addr, uint64_t v, int o) {
+  if (addr == (void*)mon_src) { mon_ld_clock = xv_clock; mon_ld_val = v; mon_ld_order = o; mon_ld_count++; }
+}
+static void mon_reset(void) {
+  for (unsigned i = 0; i < XV_K; i++) { mon_st_count[i] = 0; mon_fenced[i] = 0; mon_st_clock[i] = 0; mon_fence_clock[i] = 0; mon_st_val[i] = 0; mon_st_order[i] = 0; }
+  mon_ld_count = 0; mon_ld_clock = 0; mon_ld_val = 0; mon_ld_order = 0; mon_weak_fence = 0;
+}
+
+/* ---------------- ghost owner set and the representation invariant Inv_K ---------------- */
+enum { OW_FREE = 0, OW_A = 1, OW_B = 2, OW_OTHER = 3 };
+unsigned char gh_owner[XV_K];            /* who holds slot i: nobody (on the chain), guard A, guard B, some other live (protecting) guard */
+uintptr_t pre_val[XV_K]; unsigned char pre_owner[XV_K]; struct hp_slot* pre_hint; struct cb* pre_cb;
+struct guard gA, gB, a0, b0;
+#define SLOT(i) (&the_cb.pointers[i])
+static unsigned slot_index(const struct hp_slot* s) { for (unsigned i = 0; i < XV_K; i++) if (s == SLOT(i)) return i; return XV_K; }
+/* guard invariant GI: a non-null pointer is published in the guard's slot */
+static _Bool gi_ok(const struct guard* g) {
+  if (MP_get(g->ptr) == 0) return 1;
+  return g->hp != 0 && slot_index(g->hp) < XV_K && g->hp->value == MP_get(g->ptr);
+}
+/* GI2: a guard that protects nothing holds no slot */
+static _Bool gi2_ok(const struct guard* g) { return MP_get(g->ptr) != 0 || g->hp == 0; }
+static _Bool owner_of_guard_ok(const struct guard* g, unsigned char who) {
+  unsigned cnt = 0; for (unsigned i = 0; i < XV_K; i++) if (gh_owner[i] == who) cnt++;
+  if (g->hp == 0) return cnt == 0;
+  unsigned j = slot_index(g->hp); return j < XV_K && gh_owner[j] == who && cnt == 1;
+}
+static _Bool inv_ok(const struct guard* A, const struct guard* B, _Bool relaxA) {
+  if (local_thread_data.control_block == 0)        /* thread has not allocated yet */
+    return local_thread_data.hint == 0 && A->hp == 0 && B->hp == 0 && gi_ok(A) && gi_ok(B);
+  if (local_thread_data.control_block != &the_cb) return 0;
+  _Bool seen[XV_K]; for (unsigned i = 0; i < XV_K; i++) seen[i] = 0;
+  struct hp_slot* cur = local_thread_data.hint;
+  for (unsigned k = 0; k < XV_K; k++) {            /* the chain: inside the block, duplicate-free, link-tagged, null-terminated within K steps */
+    if (cur == 0) break;
+    unsigned j = slot_index(cur); if (j >= XV_K || seen[j]) return 0;
+    seen[j] = 1; if (SV_mark(cur->value) == 0) return 0;
+    cur = (struct hp_slot*)SV_get(cur->value);
+  }
+  if (cur != 0) return 0;
+  for (unsigned i = 0; i < XV_K; i++) {            /* exactly the slots off the chain are held; free slots carry the link tag, held ones do not */
+    if (seen[i] != (gh_owner[i] == OW_FREE)) return 0;
+    if (!(relaxA && gh_owner[i] == OW_A) && (SV_mark(SLOT(i)->value) != 0) != (gh_owner[i] == OW_FREE)) return 0;   /* relaxA: between alloc and set_object */
+    if (gh_owner[i] == OW_OTHER && SLOT(i)->value == 0) return 0;     /* other live guards protect something */
+  }
+  if (!owner_of_guard_ok(A, OW_A) || !owner_of_guard_ok(B, OW_B)) return 0;
+  return (relaxA || gi_ok(A)) && gi_ok(B);
+}
+/* after an operation: the owner map is recomputed from the guards; slots held by other guards must be untouched */
+static _Bool derive_owner(const struct guard* A, const struct guard* B) {
+  _Bool ok = 1;
+  for (unsigned i = 0; i < XV_K; i++) {
+    unsigned char o = OW_FREE;
+    if (pre_owner[i] == OW_OTHER) { o = OW_OTHER; if (SLOT(i)->value != pre_val[i]) ok = 0; }
+    if (A->hp == SLOT(i)) { if (o != OW_FREE) ok = 0; o = OW_A; }
+    if (B->hp == SLOT(i)) { if (o != OW_FREE) ok = 0; o = OW_B; }
+    gh_owner[i] = o;
+  }
+  return ok;
+}
+static _Bool slots_unchanged(void) {
+  for (unsigned i = 0; i < XV_K; i++) if (SLOT(i)->value != pre_val[i]) return 0;
+  return local_thread_data.hint == pre_hint && local_thread_data.control_block == pre_cb;
+}
+/* all slots except slot j unchanged */
+static _Bool slots_unchanged_except(const struct hp_slot* s) {
+  for (unsigned i = 0; i < XV_K; i++) if (SLOT(i) != s && SLOT(i)->value != pre_val[i]) return 0;
+  return 1;
+}
+static _Bool same_guard(const struct guard* x, const struct guard* y) { return x->ptr == y->ptr && x->hp == y->hp; }
+static unsigned free_count(void) { unsigned n = 0; for (unsigned i = 0; i < XV_K; i++) if (gh_owner[i] == OW_FREE) n++; return n; }
+
+/* ---------------- builder: an arbitrary state satisfying Inv_K (arbitrary chain order, arbitrary subset held) ---------------- */
+uint64_t in_perm; unsigned in_nfree, in_a_pos, in_b_pos, in_op; _Bool in_uninit;
+mptr in_a_ptr, in_b_ptr, in_val, in_expected, in_src; uintptr_t in_mask; int in_order;
+static unsigned perm_at(unsigned k) { return (unsigned)((in_perm >> (4 * k)) & 15); }
+static void build_state(_Bool with_a, _Bool with_b) {
+  in_perm = nondet_u64(); in_nfree = nondet_uint(); in_a_pos = nondet_uint(); in_b_pos = nondet_uint(); in_uninit = nondet_bool();
+  in_a_ptr = nondet_uptr(); in_b_ptr = nondet_uptr(); in_mask = nondet_uptr(); mp_ptrmask = in_mask;
+  XV_ASSUME(in_nfree <= XV_K && (XV_K >= 16 || (in_perm >> (4 * XV_K)) == 0));
+  for (unsigned k = 0; k < XV_K; k++) { XV_ASSUME(perm_at(k) < XV_K); for (unsigned l = 0; l < k; l++) XV_ASSUME(perm_at(l) != perm_at(k)); }
+  XV_ASSUME(in_a_pos >= in_nfree && in_a_pos <= XV_K && in_b_pos >= in_nfree && in_b_pos <= XV_K);
+  XV_ASSUME(in_a_pos == XV_K || in_a_pos != in_b_pos);
+  if (!with_a) XV_ASSUME(in_a_pos == XV_K);
+  if (!with_b) XV_ASSUME(in_b_pos == XV_K);
+  XV_ASSUME(CANON(in_a_ptr) && CANON(in_b_ptr));
+  xv_threw = 0; xv_clock = nondet_u64(); XV_ASSUME(xv_clock < ((uint64_t)1 << 62)); xv_number_of_active_hps = nondet_size();
+  if (in_uninit) {
+    XV_ASSUME(in_a_pos == XV_K && in_b_pos == XV_K && in_nfree == XV_K);
+    local_thread_data.control_block = 0; local_thread_data.hint = 0;
+    for (unsigned i = 0; i < XV_K; i++) { the_cb.pointers[i].value = nondet_uptr(); gh_owner[i] = OW_FREE; }
+  } else {
+    local_thread_data.control_block = &the_cb;
+    local_thread_data.hint = in_nfree ? SLOT(perm_at(0)) : 0;
+    for (unsigned k = 0; k < XV_K; k++) {
+      unsigned i = perm_at(k);
+      if (k < in_nfree) { gh_owner[i] = OW_FREE; SLOT(i)->value = ((k + 1 < in_nfree) ? (uintptr_t)SLOT(perm_at(k + 1)) : 0) | SV_BIT; }
+      else { uintptr_t o = nondet_uptr(); XV_ASSUME((o >> 48) == 0); SLOT(i)->value = o;
+             gh_owner[i] = (k == in_a_pos) ? OW_A : (k == in_b_pos) ? OW_B : OW_OTHER; if (gh_owner[i] == OW_OTHER) XV_ASSUME(o != 0); }
+    }
+  }
+  gA.ptr = in_a_ptr; gA.hp = in_a_pos < XV_K ? SLOT(perm_at(in_a_pos)) : 0;
+  gB.ptr = in_b_ptr; gB.hp = in_b_pos < XV_K ? SLOT(perm_at(in_b_pos)) : 0;
+  if (!with_a) gA.ptr = 0;
+  if (!with_b) gB.ptr = 0;
+  XV_ASSUME(gi_ok(&gA) && gi_ok(&gB));
+  for (unsigned i = 0; i < XV_K; i++) { pre_val[i] = SLOT(i)->value; pre_owner[i] = gh_owner[i]; }
+  pre_hint = local_thread_data.hint; pre_cb = local_thread_data.control_block; a0 = gA; b0 = gB;
+  gh_acquire_entry_calls = 0; gh_set_deleter_calls = 0; gh_retire_calls = 0; gh_scan_calls = 0;
+  gh_retired_count = nondet_size(); gh_threshold = nondet_size(); gh_deleter = nondet_uptr(); gh_deleter_obj = nondet_uptr(); gh_retired_obj = nondet_uptr();
+  mon_reset();
+}
+#define NFREE_PRE (in_nfree)
+
+/* ---------------- loop cut of acquire's retry loop ---------------- */
+mptr* acq_src; _Bool env_on;
+static _Bool acq_loop_inv(struct guard* self, mptr p2, int order) {
+  if (self != &gA || self->ptr != a0.ptr || p2 != mon_ld_val || !CANON(p2)) return 0;
+  if (mon_ld_clock > xv_clock || mon_ld_count < 1 || (mon_ld_count >= 2 && mon_ld_order != order) || mon_weak_fence != 0) return 0;
+  for (unsigned i = 0; i < XV_K; i++) {
+    if (mon_st_count[i] && !XV_IS_RELEASE(mon_st_order[i])) return 0;
+    if (SLOT(i) != self->hp && !in_uninit && (mon_st_count[i] != 0 || SLOT(i)->value != pre_val[i])) return 0;   /* frame: only the own slot is written */
+  }
+  if (p2 != 0 && self->hp == 0) return 0;
+  if (!(self->hp == a0.hp || (a0.hp == 0 && self->hp == pre_hint && pre_hint != 0) || (a0.hp == 0 && pre_cb == 0 && self->hp == SLOT(0)))) return 0;
+  return derive_owner(&gA, &gB) && inv_ok(&gA, &gB, 1);
+}
+#ifdef XV_INT
+#define XV_HAVOC_SRC *acq_src = nondet_uptr()      /* rewritten by xv_env() before the next access anyway */
+#define SRC_STABLE 1
+#else
+#define XV_HAVOC_SRC ((void)0)                     /* no interference: nobody writes the source */
+#define SRC_STABLE (*acq_src == in_src && mon_ld_val == in_src)
+#endif
+#define XV_INV_ACQ (!xv_threw && SRC_STABLE && acq_loop_inv(self, p2, order))
+#define XV_HAVOC_ACQ p1 = nondet_uptr(); p2 = nondet_uptr(); xv_clock = nondet_u64(); XV_HAVOC_SRC; \
+  mon_ld_clock = nondet_u64(); mon_ld_val = nondet_uptr(); mon_ld_order = nondet_int(); mon_ld_count = nondet_uint(); \
+  { unsigned hv = slot_index(self->hp); if (hv < XV_K) { /* the loop body writes only the guard's own slot (set_object) */ \
+      the_cb.pointers[hv].value = nondet_uptr(); mon_st_clock[hv] = nondet_u64(); mon_fence_clock[hv] = nondet_u64(); \
+      mon_st_val[hv] = nondet_uptr(); mon_st_order[hv] = nondet_int(); mon_st_count[hv] = nondet_uint(); mon_fenced[hv] = nondet_bool(); XV_ASSUME(mon_st_count[hv] < (1u << 30)); } } \
+  XV_ASSUME(xv_clock < ((uint64_t)1 << 62) && mon_ld_count < (1u << 30))   /* model artifact: the event clock and the event counters of the monitors do not wrap */
+
+#ifdef XV_INT
+void xv_env(void) { if (env_on) { mptr v = nondet_uptr(); XV_ASSUME(CANON(v)); *acq_src = v; } }   /* rely: other threads store anything into the source cell */
+#endif
+
+#include "lowered.h"
+
+/* =================================================== harnesses =================================================== */
+#define THREW_BAD_ALLOC (xv_threw == XV_EXC_bad_hazard_pointer_alloc)
+
+/* ---- slot word: set_object / try_get_object / set_link / get_link / is_link ---- */
+void h_slot(void) {
+  unsigned j = nondet_uint(), m = nondet_uint(); XV_ASSUME(j < XV_K && m <= XV_K);
+  for (unsigned i = 0; i < XV_K; i++) { SLOT(i)->value = nondet_uptr(); pre_val[i] = SLOT(i)->value; }
+  xv_clock = nondet_u64(); XV_ASSUME(xv_clock < ((uint64_t)1 << 62)); xv_threw = 0; mon_reset();
+  uintptr_t res0 = nondet_uptr(), res = res0;
+  if (nondet_bool()) {
+    uintptr_t obj = nondet_uptr(); XV_ASSUME((obj >> 48) == 0);
+    hp_set_object(SLOT(j), obj);
+    XV_OBL("hp.slot.roundtrip", !hp_is_link(SLOT(j)) && hp_try_get_object(SLOT(j), &res) && res == obj);
+    XV_OBL("hp.slot.roundtrip", slots_unchanged_except(SLOT(j)) && !xv_threw);
+    XV_OBL("hp.sync.orders", mon_st_count[j] == 1 && mon_st_val[j] == obj && XV_IS_RELEASE(mon_st_order[j]));
+    XV_OBL("hp.sync.orders", mon_fenced[j] && mon_fence_clock[j] > mon_st_clock[j] && mon_weak_fence == 0);
+    XV_CANARY("slot.object");
+  } else {
+    struct hp_slot* l = m < XV_K ? SLOT(m) : 0;
+    hp_set_link(SLOT(j), l);
+    XV_OBL("hp.slot.roundtrip", hp_is_link(SLOT(j)) && hp_get_link(SLOT(j)) == l);
+    XV_OBL("hp.slot.roundtrip", !hp_try_get_object(SLOT(j), &res) && res == res0);
+    XV_OBL("hp.slot.roundtrip", slots_unchanged_except(SLOT(j)) && !xv_threw);
+    XV_OBL("hp.sync.orders", mon_st_count[j] == 1 && XV_IS_RELEASE(mon_st_order[j]));
+    if (l) XV_CANARY("slot.link"); else XV_CANARY("slot.link_null");
+  }
+}
+
+/* ---- initialize_block from arbitrary contents; K successive allocations of a new thread; the K+1st throws ---- */
+void h_init(void) {
+  build_state(0, 0); XV_ASSUME(in_uninit);
+  if (nondet_bool()) {
+    struct hp_slot* b = cb_initialize_block(&the_cb);
+    local_thread_data.control_block = &the_cb; local_thread_data.hint = b;
+    XV_OBL("hp.initialize.all_free", b == SLOT(0) && inv_ok(&gA, &gB, 0) && free_count() == XV_K);
+    for (unsigned i = 0; i < XV_K; i++)
+      XV_OBL("hp.initialize.all_free", SLOT(i)->value == (((i + 1 < XV_K) ? (uintptr_t)SLOT(i + 1) : 0) | SV_BIT));
+    XV_CANARY("init.block");
+  } else {
+    size_t act0 = xv_number_of_active_hps;
+    struct hp_slot* r[XV_K + 1];
+    for (unsigned n = 0; n < XV_K; n++) {
+      r[n] = td_alloc_hazard_pointer(&local_thread_data);
+      XV_OBL("hp.alloc.k_available", !xv_threw && r[n] != 0 && slot_index(r[n]) < XV_K);
+      for (unsigned l = 0; l < n; l++) XV_OBL("hp.alloc.k_available", r[l] != r[n]);
+    }
+    XV_OBL("hp.alloc.k_available", local_thread_data.hint == 0 && gh_acquire_entry_calls == 1 && xv_number_of_active_hps == act0 + XV_K);
+    XV_CANARY("init.k_allocs");
+    r[XV_K] = td_alloc_hazard_pointer(&local_thread_data);
+    XV_OBL("hp.alloc.exhausted_throws", THREW_BAD_ALLOC && local_thread_data.hint == 0 && gh_acquire_entry_calls == 1);
+  }
+}
+
+/* ---- thread_data::alloc_hazard_pointer / release_hazard_pointer from an arbitrary Inv_K state ---- */
+void h_alloc(void) {
+  build_state(1, 0); in_op = nondet_uint();
+  if (in_op == 0) {
+    XV_ASSUME(a0.hp == 0 && a0.ptr == 0);
+    struct hp_slot* r = td_alloc_hazard_pointer(&local_thread_data);
+    if (in_uninit || in_nfree > 0) {
+      XV_OBL("hp.alloc.k_available", !xv_threw && r != 0 && slot_index(r) < XV_K);
+      if (!in_uninit) {
+        XV_OBL("hp.alloc.k_available", r == pre_hint && slots_unchanged_except(0) && gh_acquire_entry_calls == 0);
+        XV_OBL("hp.alloc.k_available", local_thread_data.hint == (struct hp_slot*)SV_get(pre_val[slot_index(r) % XV_K]));
+        XV_CANARY("alloc.from_chain");
+      } else {
+        XV_OBL("hp.alloc.k_available", r == SLOT(0) && gh_acquire_entry_calls == 1 && local_thread_data.control_block == &the_cb);
+        XV_CANARY("alloc.first_of_thread");
+      }
+      uintptr_t obj = nondet_uptr(); XV_ASSUME((obj >> 48) == 0 && MP_get(obj) == obj);
+      gA.hp = r; gA.ptr = obj; hp_set_object(r, obj);       /* what every caller does next */
+      XV_OBL("hp.guard_ops.preserve_inv", derive_owner(&gA, &gB) && inv_ok(&gA, &gB, 0) && free_count() == (in_uninit ? XV_K : in_nfree) - 1);
+    } else {
+      XV_OBL("hp.alloc.exhausted_throws", THREW_BAD_ALLOC && r == 0 && slots_unchanged());
+      XV_OBL("hp.guard_ops.preserve_inv", derive_owner(&gA, &gB) && inv_ok(&gA, &gB, 0));
+      XV_CANARY("alloc.exhausted");
+    }
+  } else {
+    td_release_hazard_pointer(&local_thread_data, &gA.hp);
+    if (a0.hp != 0) {
+      XV_OBL("hp.release.returns_slot", gA.hp == 0 && local_thread_data.hint == a0.hp && a0.hp->value == ((uintptr_t)pre_hint | SV_BIT));
+      XV_OBL("hp.release.returns_slot", slots_unchanged_except(a0.hp) && !xv_threw && local_thread_data.control_block == pre_cb);
+      gA.ptr = 0;
+      XV_OBL("hp.release.returns_slot", derive_owner(&gA, &gB) && inv_ok(&gA, &gB, 0) && free_count() == in_nfree + 1);
+      XV_CANARY("release.held");
+    } else {
+      XV_OBL("hp.release.returns_slot", gA.hp == 0 && slots_unchanged() && !xv_threw);
+      if (in_uninit) XV_CANARY("release.null_uninit"); else XV_CANARY("release.null");
+    }
+  }
+}
+
+/* ---- all guard_ptr operations (no interference) from an arbitrary Inv_K state with two guards A, B and any number of other guards ---- */
+enum { OP_CTOR, OP_COPY_CTOR, OP_MOVE_CTOR, OP_COPY_ASSIGN, OP_COPY_ASSIGN_SELF, OP_MOVE_ASSIGN, OP_MOVE_ASSIGN_SELF, OP_RESET, OP_RESET_TWICE,
+       OP_SWAP, OP_SWAP_SELF, OP_RECLAIM, OP_DTOR, OP_COUNT };
+static _Bool returned_to_chain(const struct hp_slot* s) {      /* s was released: head of the chain, linked to the old head */
+  return local_thread_data.hint == s && s->value == ((uintptr_t)pre_hint | SV_BIT) && slots_unchanged_except(s);
+}
+void h_gops(void) {
+  build_state(1, 1); in_op = nondet_uint(); in_val = nondet_uptr(); XV_ASSUME(in_op < OP_COUNT && CANON(in_val));
+  _Bool fresh_a = in_op <= OP_MOVE_CTOR;                       /* constructors: A is raw storage */
+  if (fresh_a) { XV_ASSUME(in_a_pos == XV_K); gA.ptr = nondet_uptr(); unsigned g = nondet_uint(); gA.hp = g < XV_K ? SLOT(g) : 0; a0.ptr = 0; a0.hp = 0; }
+  _Bool pre_gi2 = gi2_ok(&a0) && gi2_ok(&b0);
+  _Bool avail = in_uninit || in_nfree > 0;
+  _Bool needs_slot = 0; struct guard* ret = &gA; uintptr_t d = nondet_uptr();
+  struct hp_slot* head = in_uninit ? SLOT(0) : pre_hint;       /* the slot the next allocation must deliver */
+  switch (in_op) {
+    case OP_CTOR: needs_slot = MP_get(in_val) != 0; g_ctor(&gA, in_val); break;
+    case OP_COPY_CTOR: needs_slot = MP_get(b0.ptr) != 0; g_copy_ctor(&gA, &gB); break;
+    case OP_MOVE_CTOR: g_move_ctor(&gA, &gB); break;
+    case OP_COPY_ASSIGN: needs_slot = MP_get(b0.ptr) != 0 && a0.hp == 0; ret = g_copy_assign(&gA, &gB); break;
+    case OP_COPY_ASSIGN_SELF: ret = g_copy_assign(&gA, &gA); break;
+    case OP_MOVE_ASSIGN: ret = g_move_assign(&gA, &gB); break;
+    case OP_MOVE_ASSIGN_SELF: ret = g_move_assign(&gA, &gA); break;
+    case OP_RESET: case OP_RESET_TWICE: g_reset(&gA); break;
+    case OP_SWAP: g_swap(&gA, &gB); break;
+    case OP_SWAP_SELF: g_swap(&gA, &gA); break;
+    case OP_RECLAIM: XV_ASSUME(MP_get(a0.ptr) != 0); g_reclaim(&gA, d); break;
+    default: g_dtor(&gA); break;
+  }
+  _Bool threw = xv_threw != 0;
+  if (threw && fresh_a) g_dtor(&gA);          /* a throwing constructor: the base sub-object is destroyed (detail::guard_ptr::~guard_ptr -> reset) */
+  /* ---- generic: Inv_K, GI, frame, exceptions ---- */
+  XV_OBL("hp.guard_ops.preserve_inv", derive_owner(&gA, &gB) && inv_ok(&gA, &gB, 0));
+  if (pre_gi2) XV_OBL("hp.guard_ops.empty_holds_no_slot", gi2_ok(&gA) && gi2_ok(&gB));
+  if (threw) {
+    XV_OBL("hp.alloc.exhausted_throws", THREW_BAD_ALLOC && slots_unchanged() && same_guard(&gB, &b0) && same_guard(&gA, &a0));
+    XV_OBL("hp.alloc.k_available", needs_slot && !avail);
+    if (in_op == OP_CTOR) XV_CANARY("gops.ctor_throw");
+    if (in_op == OP_COPY_CTOR) XV_CANARY("gops.copy_ctor_throw");
+    if (in_op == OP_COPY_ASSIGN) XV_CANARY("gops.copy_assign_throw");
+    return;
+  }
+  XV_OBL("hp.alloc.exhausted_throws", !(needs_slot && !avail));
+  switch (in_op) {
+    case OP_CTOR: case OP_COPY_CTOR: {
+      mptr v = in_op == OP_CTOR ? in_val : b0.ptr;
+      XV_OBL("hp.ctor.protects", gA.ptr == v && same_guard(&gB, &b0));
+      if (MP_get(v) != 0) { XV_OBL("hp.alloc.k_available", gA.hp == head && (in_uninit || slots_unchanged_except(gA.hp)) && gA.hp->value == MP_get(v));
+        if (in_op == OP_CTOR) XV_CANARY("gops.ctor_protect"); }
+      else { XV_OBL("hp.ctor.protects", gA.hp == 0 && slots_unchanged()); if (in_op == OP_CTOR) XV_CANARY("gops.ctor_null"); }
+      if (in_op == OP_COPY_CTOR) {
+        XV_OBL("hp.copy.shares", gA.ptr == gB.ptr && (MP_get(v) == 0 || (gA.hp != gB.hp && gA.hp->value == gB.hp->value && gB.hp->value == pre_val[slot_index(gB.hp) % XV_K])));
+        if (MP_get(v) != 0) XV_CANARY("gops.copy_ctor_protect"); else XV_CANARY("gops.copy_ctor_empty");
+      }
+      break; }
+    case OP_MOVE_CTOR:
+      XV_OBL("hp.move.empties_source", same_guard(&gA, &b0) && gB.ptr == 0 && gB.hp == 0 && slots_unchanged());
+      if (b0.hp) XV_CANARY("gops.move_ctor_held"); else XV_CANARY("gops.move_ctor_empty");
+      break;
+    case OP_COPY_ASSIGN:
+      XV_OBL("hp.copy.shares", ret == &gA && gA.ptr == b0.ptr && same_guard(&gB, &b0) && (b0.hp == 0 || b0.hp->value == pre_val[slot_index(b0.hp) % XV_K]));
+      XV_OBL("hp.copy.shares", MP_get(b0.ptr) == 0 || (gA.hp != 0 && gA.hp != gB.hp && gA.hp->value == gB.hp->value));
+      if (a0.hp == 0 && gA.hp != 0) XV_OBL("hp.alloc.k_available", gA.hp == head);
+      if (MP_get(b0.ptr) != 0 && a0.hp != 0) XV_CANARY("gops.copy_assign_reuse");
+      if (MP_get(b0.ptr) != 0 && a0.hp == 0) XV_CANARY("gops.copy_assign_alloc");
+      if (MP_get(b0.ptr) == 0 && a0.hp != 0) XV_CANARY("gops.copy_assign_from_empty");
+      if (MP_get(b0.ptr) == 0 && a0.hp == 0) XV_CANARY("gops.copy_assign_both_empty");
+      break;
+    case OP_COPY_ASSIGN_SELF: case OP_MOVE_ASSIGN_SELF:
+      XV_OBL("hp.self_assign.noop", ret == &gA && same_guard(&gA, &a0) && same_guard(&gB, &b0) && slots_unchanged());
+      if (a0.hp) { if (in_op == OP_COPY_ASSIGN_SELF) XV_CANARY("gops.self_copy"); else XV_CANARY("gops.self_move"); }
+      break;
+    case OP_MOVE_ASSIGN:
+      XV_OBL("hp.move.empties_source", ret == &gA && same_guard(&gA, &b0) && gB.ptr == 0 && gB.hp == 0);
+      if (a0.hp) { XV_OBL("hp.release.returns_slot", returned_to_chain(a0.hp)); XV_CANARY("gops.move_assign_releases"); }
+      else { XV_OBL("hp.release.returns_slot", slots_unchanged()); XV_CANARY("gops.move_assign_plain"); }
+      break;
+    case OP_RESET: case OP_DTOR: case OP_RESET_TWICE:
+      XV_OBL("hp.reset.releases", gA.ptr == 0 && gA.hp == 0 && same_guard(&gB, &b0));
+      if (a0.hp) { XV_OBL("hp.release.returns_slot", returned_to_chain(a0.hp)); if (in_op == OP_RESET) XV_CANARY("gops.reset_held"); if (in_op == OP_DTOR) XV_CANARY("gops.dtor_held"); }
+      else { XV_OBL("hp.release.returns_slot", slots_unchanged()); if (in_op == OP_RESET) XV_CANARY("gops.reset_empty"); }
+      if (in_op == OP_RESET_TWICE) {
+        uintptr_t v1[XV_K]; for (unsigned i = 0; i < XV_K; i++) v1[i] = SLOT(i)->value;
+        struct hp_slot* h1 = local_thread_data.hint; struct cb* c1 = local_thread_data.control_block;
+        g_reset(&gA);
+        _Bool same = local_thread_data.hint == h1 && local_thread_data.control_block == c1 && gA.ptr == 0 && gA.hp == 0 && same_guard(&gB, &b0) && !xv_threw;
+        for (unsigned i = 0; i < XV_K; i++) if (SLOT(i)->value != v1[i]) same = 0;
+        XV_OBL("hp.reset.idempotent", same);
+        if (a0.hp) XV_CANARY("gops.reset_twice");
+      }
+      break;
+    case OP_SWAP:
+      XV_OBL("hp.swap.exchanges", same_guard(&gA, &b0) && same_guard(&gB, &a0) && slots_unchanged());
+      if (a0.hp && b0.hp) XV_CANARY("gops.swap_both"); if (a0.hp && !b0.hp) XV_CANARY("gops.swap_one");
+      break;
+    case OP_SWAP_SELF:
+      XV_OBL("hp.swap.exchanges", same_guard(&gA, &a0) && same_guard(&gB, &b0) && slots_unchanged());
+      break;
+    case OP_RECLAIM:
+      XV_OBL("hp.reclaim.retires_and_resets", gA.ptr == 0 && gA.hp == 0 && same_guard(&gB, &b0) && returned_to_chain(a0.hp));
+      XV_OBL("hp.reclaim.retires_and_resets", gh_retire_calls == 1 && gh_retired_obj == MP_get(a0.ptr) && gh_set_deleter_calls == 1 && gh_deleter_obj == MP_get(a0.ptr) && gh_deleter == d);
+      XV_OBL("hp.reclaim.retires_and_resets", gh_scan_calls == (gh_retired_count >= gh_threshold ? 1u : 0u));
+      if (gh_scan_calls) XV_CANARY("gops.reclaim_scan"); else XV_CANARY("gops.reclaim");
+      break;
+  }
+}
+
+/* ---- acquire / acquire_if_equal.  INT: other threads rewrite the source cell between any two atomic accesses; retry loop cut by XV_INV_ACQ ---- */
+static _Bool validated(const struct guard* g) {     /* store(slot,obj) < seq_cst fence < the load of the source that returned the result; no later store to the slot */
+  unsigned i = slot_index(g->hp); if (i >= XV_K) return 0;
+  return mon_st_count[i] >= 1 && mon_st_val[i] == MP_get(g->ptr) && mon_fenced[i] && mon_st_clock[i] < mon_fence_clock[i]
+      && mon_fence_clock[i] < mon_ld_clock && mon_ld_val == g->ptr && g->hp->value == MP_get(g->ptr);
+}
+void h_acq(void) {
+  build_state(1, 1); in_op = nondet_uint(); in_expected = nondet_uptr(); in_src = nondet_uptr(); in_order = nondet_int();
+  XV_ASSUME(in_op < 2 && CANON(in_expected) && CANON(in_src) && in_order >= mo_relaxed && in_order <= mo_seq_cst);
+  mptr src = in_src; acq_src = &src; mon_src = &src;
+  _Bool pre_gi2 = gi2_ok(&a0) && gi2_ok(&b0), avail = in_uninit || in_nfree > 0, r = 0;
+  env_on = 1;
+  if (in_op == 0) g_acquire(&gA, &src, in_order); else r = g_acquire_if_equal(&gA, &src, in_expected, in_order);
+  env_on = 0;
+  XV_OBL("hp.guard_ops.preserve_inv", derive_owner(&gA, &gB) && inv_ok(&gA, &gB, 0) && same_guard(&gB, &b0));
+  if (pre_gi2) XV_OBL("hp.guard_ops.empty_holds_no_slot", gi2_ok(&gA));
+  for (unsigned i = 0; i < XV_K; i++) if (mon_st_count[i]) XV_OBL("hp.sync.orders", XV_IS_RELEASE(mon_st_order[i]) && mon_weak_fence == 0);
+  if (xv_threw) {
+    XV_OBL("hp.alloc.exhausted_throws", THREW_BAD_ALLOC && slots_unchanged() && same_guard(&gA, &a0));
+    XV_OBL("hp.alloc.k_available", a0.hp == 0 && !avail && mon_ld_count == 1 && MP_get(mon_ld_val) != 0);
+    if (in_op == 0) XV_CANARY("acq.throw"); else XV_CANARY("aie.throw");
+    return;
+  }
+  unsigned ai = slot_index(gA.hp);
+  if (in_op == 0) {
+    XV_OBL("hp.acquire.snapshot", mon_ld_count >= 1 && gA.ptr == mon_ld_val);
+    if (MP_get(gA.ptr) != 0) {
+      _Bool kept = ai < XV_K && mon_st_count[ai] == 0 && same_guard(&gA, &a0) && mon_ld_count == 1;   /* the source still holds what the guard already protects */
+      XV_OBL("hp.acquire.validated", kept || validated(&gA));
+      if (kept) XV_CANARY("acq.kept"); else XV_CANARY("acq.protect_new");
+    } else if (gA.ptr != 0) XV_CANARY("acq.marked_null"); else XV_CANARY("acq.null");
+    if (mon_ld_count >= 2) XV_OBL("hp.sync.orders", mon_ld_order == in_order);
+#ifndef XV_INT
+    XV_OBL("hp.acquire.snapshot", gA.ptr == in_src && src == in_src);
+#endif
+  } else {
+    XV_OBL("hp.acquire_if_equal.iff", mon_ld_count >= 1 && r == (mon_ld_val == in_expected));
+    XV_OBL("hp.acquire_if_equal.iff", r ? gA.ptr == in_expected : (gA.ptr == 0 && gA.hp == 0));
+    if (r && MP_get(gA.ptr) != 0) { XV_OBL("hp.acquire.validated", validated(&gA)); XV_OBL("hp.sync.orders", mon_ld_count == 2 && mon_ld_order == in_order); XV_CANARY("aie.true"); }
+    if (r && gA.ptr == 0) XV_CANARY("aie.true_null");
+    if (!r && mon_ld_count == 1) XV_CANARY("aie.false_first");
+#ifdef XV_INT
+    if (!r && mon_ld_count == 2) { if (a0.hp) XV_CANARY("aie.false_changed"); else XV_CANARY("aie.false_changed_released"); }
+#else
+    XV_OBL("hp.acquire_if_equal.iff", r == (in_src == in_expected) && src == in_src);
+#endif
+  }
+}
